@@ -173,6 +173,21 @@ def variant(rsmi, kind, rnd):
         return ".".join(fl) + ">>" + ".".join(fr)
     if kind == "reverse":
         return r + ">>" + l
+    if kind == "spectator":
+        # add unchanged, fully mapped spectator molecules to both sides (fresh map numbers)
+        import re
+        top = max([int(x) for x in re.findall(r":(\d+)\]", rsmi)] or [0])
+        pool = ["[H:{a}][H:{b}]", "[OH2:{a}]", "[Na+:{a}]", "[CH4:{a}]", "[H:{a}][H:{b}].[H:{c}][H:{d}]", "[Cl-:{a}]", "[H+:{a}]"]
+        k = rnd.choice([1, 1, 2])
+        extra = []
+        for _ in range(k):
+            t = rnd.choice(pool)
+            extra.append(t.format(a=top + 1, b=top + 2, c=top + 3, d=top + 4))
+            top += 4
+        side = ".".join(extra)
+        if rnd.random() < 0.5:
+            return l + "." + side + ">>" + r + "." + side
+        return side + "." + l + ">>" + side + "." + r
     raise ValueError(kind)
 
 
@@ -198,6 +213,50 @@ def reaction_graphs(rsmi):
         if m is None or m.GetNumAtoms() != len(g):
             return None, None, "not-fully-mapped"
     return r, p, None
+
+
+PROBE_SELECTIONS = [
+    dict(node_attrs=["element", "atom_map"], edge_attrs=[]),
+    dict(node_attrs=["element"], edge_attrs=["order"]),
+    dict(node_attrs=["element", "aromatic", "hcount", "charge", "neighbors", "atom_map"], edge_attrs=["order"], sanitize=False),
+    dict(node_attrs=["atom_map", "element"], edge_attrs=["order"], use_index_as_atom_map=False),
+]
+
+
+def light_calls(ctx, rsmi):
+    from synkit.IO.chem_converter import rsmi_to_graph, smiles_to_graph
+    sel = ctx.rnd.choice(PROBE_SELECTIONS)
+    ctx.count("history-probe-first:" + ",".join(sel["node_attrs"]) + "|" + ",".join(sel["edge_attrs"]))
+    try:
+        rsmi_to_graph(rsmi, **sel)
+        for side in rsmi.split(">>"):
+            smiles_to_graph(side, **sel)
+    except Exception:
+        ctx.count("history-probe:light-call-raised")
+
+
+def interleave_probe(ctx, rsmi, r0, p0):
+    """Convert `rsmi` with non-default options first, then again with the defaults; the default
+    result must equal the one obtained before (r0, p0).  Returns the fresh default graphs, or
+    (None, None) when they differ."""
+    from synkit.IO.chem_converter import rsmi_to_graph, smiles_to_graph
+    import networkx as nx
+    sel = ctx.rnd.choice([
+        dict(node_attrs=["element", "atom_map"], edge_attrs=[]),
+        dict(node_attrs=["element"], edge_attrs=["order"]),
+        dict(node_attrs=["element", "aromatic", "hcount", "charge", "neighbors", "atom_map"], edge_attrs=["order"], sanitize=False),
+        dict(node_attrs=["atom_map", "element"], edge_attrs=["order"], use_index_as_atom_map=False),
+    ])
+    ctx.count("history-probe:" + ",".join(sel["node_attrs"]) + "|" + ",".join(sel["edge_attrs"]))
+    try:
+        rsmi_to_graph(rsmi, **sel)
+        for side in rsmi.split(">>"):
+            smiles_to_graph(side, **{k: v for k, v in sel.items() if k != "drop_non_aam"})
+    except Exception:
+        ctx.count("history-probe:light-call-raised")
+    r1, p1 = rsmi_to_graph(rsmi)
+    same = (r1 is not None and p1 is not None and enc(r1) == enc(r0) and enc(p1) == enc(p0))
+    return (r1, p1) if same else (None, None)
 
 
 def unmapped_side(smi):
@@ -474,15 +533,40 @@ def reaction_cases(ctx, items, tag):
 
     gcases, iso_reqs, iso_meta = [], [], []
     for src, idx, kind, rsmi in items:
+        probed = ctx.rnd.random() < 0.35
+        if probed:
+            # history probe, part 1: this SMILES is FIRST converted with another attribute selection;
+            # whatever that leaves behind must not reach the default conversion below (a stale result
+            # would have no bonds / hydrogen counts and fails the round-trip gates)
+            light_calls(ctx, rsmi)
         r, p, why = reaction_graphs(rsmi)
         if why:
             ctx.count(f"{tag}:skipped:{why}")
             continue
         meta = {"src": src, "idx": idx, "variant": kind, "rsmi": rsmi}
+        if probed:
+            # history probe, part 2: the same SMILES was converted earlier with a different (lighter or
+            # heavier) attribute selection / options; the default conversion must not see any of it
+            r, p = interleave_probe(ctx, rsmi, r, p)
+            if r is None:
+                ctx.violation("rsmi_to_graph with default options answers differently after the same SMILES was "
+                              "converted with another attribute selection (hidden state between calls)", {"stream": tag, **meta})
+                continue
         gcases.append((r, p, meta))
         its = impl_its(r, p)
-        from synkit.Graph.ITS.its_decompose import get_rc
-        rc = get_rc(its)
+        # centre atoms decided by the harness itself (never by the implementation under test):
+        # end points of bonds whose two orders differ, plus end points of H-H bonds (C02)
+        rc = set()
+        for u, v in r.edges():
+            if not p.has_edge(u, v) or r[u][v].get("order") != p[u][v].get("order"):
+                rc.update((u, v))
+        for u, v in p.edges():
+            if not r.has_edge(u, v):
+                rc.update((u, v))
+        for g in (r, p):
+            for u, v in g.edges():
+                if g.nodes[u].get("element") == "H" and g.nodes[v].get("element") == "H":
+                    rc.update((u, v))
         hs = [n for n, d in its.nodes(data=True) if d.get("element") == "H"]
         if any(n not in rc for n in hs):
             ctx.count(f"{tag}:rsmi-part-skipped:explicit-H-outside-centre")
@@ -520,7 +604,7 @@ def reaction_cases(ctx, items, tag):
 
 def corpus_items(ctx, per_variant):
     recs = load_reactions()
-    kinds = ["identity", "renumber", "renumber_sparse", "reroot", "shuffle", "reverse"]
+    kinds = ["identity", "renumber", "renumber_sparse", "reroot", "shuffle", "reverse", "spectator"]
     items = []
     for kind in kinds:
         chosen = recs if per_variant is None else ctx.rnd.sample(recs, min(per_variant, len(recs)))
